@@ -172,8 +172,12 @@ func main() {
 			shards = v
 		}
 	}
-	partsDir := filepath.Join(root, "evidence", ".parts")
+	// per-run directories so that two runs of the same property (e.g. against two mutants) do not collide
+	partsDir := filepath.Join(root, "evidence", ".parts", fmt.Sprintf("%s-%d", prop, os.Getpid()))
 	logsDir := filepath.Join(root, "evidence", ".logs")
+	if alt := os.Getenv("VERIF_REPO"); alt != "" && alt != "/repo" {
+		logsDir = filepath.Join(logsDir, filepath.Base(alt))
+	}
 	os.MkdirAll(partsDir, 0o755)
 	os.MkdirAll(logsDir, 0o755)
 
@@ -301,6 +305,8 @@ func main() {
 		}
 	}
 
+	os.RemoveAll(partsDir)
+
 	// 3. native fuzzing (thorough only)
 	fuzzStats := map[string]any{}
 	if tier == "thorough" && violations == 0 && len(infra) == 0 {
@@ -369,8 +375,12 @@ func main() {
 		evid["replays"] = replays
 	}
 	b, _ := json.MarshalIndent(evid, "", " ")
+	evPath := filepath.Join(root, "evidence", prop+".json")
+	if alt := os.Getenv("VERIF_REPO"); alt != "" && alt != "/repo" {
+		evPath = filepath.Join(logsDir, prop+".evidence.json") // runs against a scratch copy never touch the real evidence
+	}
 	if len(samples) > 0 || violations > 0 {
-		os.WriteFile(filepath.Join(root, "evidence", prop+".json"), b, 0o644)
+		os.WriteFile(evPath, b, 0o644)
 	}
 
 	vl := keys(violLines)
